@@ -17,7 +17,7 @@ from sim.driver import Report
 PROP = "C12"
 TIERS = {"quick": {"pairs": 100, "envs": 7, "budget": 70.0}, "thorough": {"pairs": 1200, "envs": 12, "budget": 1500.0}}
 SCRATCH = "/dev/shm" if os.path.isdir("/dev/shm") else tempfile.gettempdir()
-E0 = {"route": "api", "heap": 0, "dir_seed": 0, "clock": "2001-02-03T04:05:06", "history": [], "cache": 0, "repeat": 1, "history_same_package": 0, "environ": None, "source_copy": None, "config_version": None, "config_text": None, "source_spelling": None, "optimize": 0, "init_roundtrip": 0, "mixed_parity": 0}
+E0 = {"route": "api", "heap": 0, "dir_seed": 0, "clock": "2001-02-03T04:05:06", "history": [], "cache": 0, "repeat": 1, "history_same_package": 0, "environ": None, "source_copy": None, "config_version": None, "config_text": None, "source_spelling": None, "optimize": 0, "init_roundtrip": 0, "mixed_parity": 0, "ruff_delay": 0, "edit_between": 0}
 ROUTES = ["api", "api_file", "cli_flags", "cli_config", "cli_mixed"]
 
 
@@ -158,6 +158,15 @@ def gen_env(rng, srcs):
         env["init_roundtrip"] = 1  # the project file is refreshed with `xsdata init-config <file>` before it is used
     if rng.random() < 0.5:
         env["mixed_parity"] = 1
+    if rng.random() < 0.12:
+        # an earlier generation in this interpreter read the same files with other content (edited in place since)
+        env["edit_between"] = 1
+        env["cache"] = 0
+        env["repeat"] = 1
+        if not env.get("source_copy"):
+            env["source_copy"] = "checkout/src"
+    if rng.random() < 0.04:
+        env["ruff_delay"] = 12  # the formatter takes its time this once (cold cache, loaded machine)
     if rng.random() < 0.1:
         env["optimize"] = 1  # python -O
     if rng.random() < 0.12:
@@ -197,6 +206,7 @@ def run_child(source, recursive, params, env, timeout=600.0):
         penv.update({"LC_ALL": "C.UTF-8", "TZ": "UTC", "COLUMNS": "80", "USER": "verif", "HOME": "/nonexistent"})
         penv.update(env.get("environ") or {})
         penv["PYTHONDONTWRITEBYTECODE"] = "1"
+        penv["VERIF_RUFF_DELAY"] = str(env.get("ruff_delay") or 0)
         cmd = [sys.executable] + (["-O"] if env.get("optimize") else []) + [os.path.join(core.VERIF, "sim", "c12_child.py")]
         setarch = shutil.which("setarch")
         if setarch:
@@ -260,7 +270,7 @@ def minimize_env(source, recursive, params, env, ref, sigkind):
     """Reset environment components to E0 one at a time while the difference persists."""
     best = dict(env)
     trials = 0
-    for key in ("source_copy", "environ", "history_same_package", "history", "cache", "repeat", "dir_seed", "heap", "init_roundtrip", "config_text", "config_version", "source_spelling", "optimize", "mixed_parity", "route", "clock", "hashseed"):
+    for key in ("source_copy", "environ", "history_same_package", "history", "cache", "repeat", "dir_seed", "heap", "init_roundtrip", "config_text", "config_version", "source_spelling", "optimize", "mixed_parity", "ruff_delay", "edit_between", "route", "clock", "hashseed"):
         default = E0.get(key, 0)
         if best.get(key, default) == default:
             continue
@@ -422,7 +432,7 @@ def check(args):
                 "source_sets": [s[0] for s in srcs],
                 "components": {
                     "real": ["ResourceTransformer", "SchemaParser/DefinitionsParser/DtdParser", "all mappers", "ClassContainer + all handlers", "validator", "DependenciesResolver", "DataclassGenerator incl. the real .jinja2 templates", "Filters", "CodeWriter", "GeneratorConfig.read/write/create", "xsdata.cli generate + xsdata.utils.click.model_options", "validate_imports (the generated package is imported)"],
-                    "stub": ["jinja2 -> /verif/stubs/jinja2 (own interpreter of the template language, executes the repository's templates; AST-equal to the committed fixture for primer/order.xsd)", "click -> /verif/stubs/click (own option parser driven by the real option declarations)", "toposort -> /verif/stubs/toposort (re-implementation)", "ruff -> /verif/stubs/bin/ruff (no-op: generated files are not re-formatted)"],
+                    "stub": ["jinja2 -> /verif/stubs/jinja2 (own interpreter of the template language, executes the repository's templates; AST-equal to the committed fixture for primer/order.xsd)", "click -> /verif/stubs/click (own option parser driven by the real option declarations)", "toposort -> /verif/stubs/toposort (re-implementation)", "ruff -> /verif/stubs/bin/ruff (stand-in: `format` strips trailing white space, caps blank lines, can be slow on request; `check` does nothing)"],
                 },
                 "known_findings_printed": [k["what"] for k in report.known],
             },
